@@ -15,6 +15,8 @@ import (
 	"strconv"
 	"strings"
 	"sync"
+	"sync/atomic"
+	"syscall"
 	"time"
 
 	"github.com/samaritan-proxy/samaritan/host"
@@ -23,6 +25,7 @@ import (
 )
 
 type c06Backend struct {
+	accepts int64
 	mu    sync.Mutex
 	addr  string
 	ln    net.Listener
@@ -38,6 +41,7 @@ func (b *c06Backend) serve() {
 			if err != nil {
 				return
 			}
+			atomic.AddInt64(&b.accepts, 1)
 			go func() {
 				defer c.Close()
 				c.Write(b.hello) // tells the client which backend it reached
@@ -75,6 +79,33 @@ func (b *c06Backend) up() {
 
 var c06Annotated string
 
+// a backend whose connects neither succeed nor are refused: a listening socket with a full accept queue
+func newBlackhole() (string, func()) {
+	fd, err := syscall.Socket(syscall.AF_INET, syscall.SOCK_STREAM, 0)
+	if err != nil {
+		die("blackhole socket: %v", err)
+	}
+	syscall.SetsockoptInt(fd, syscall.SOL_SOCKET, syscall.SO_REUSEADDR, 1)
+	if err := syscall.Bind(fd, &syscall.SockaddrInet4{Port: 0, Addr: [4]byte{127, 0, 0, 1}}); err != nil {
+		die("blackhole bind: %v", err)
+	}
+	syscall.Listen(fd, 0)
+	sa, _ := syscall.Getsockname(fd)
+	addr := fmt.Sprintf("127.0.0.1:%d", sa.(*syscall.SockaddrInet4).Port)
+	var fill []net.Conn
+	for i := 0; i < 4; i++ { // nobody accepts: the queue fills, further SYNs are dropped
+		if c, err := net.DialTimeout("tcp", addr, 150*time.Millisecond); err == nil {
+			fill = append(fill, c)
+		}
+	}
+	return addr, func() {
+		for _, c := range fill {
+			c.Close()
+		}
+		syscall.Close(fd)
+	}
+}
+
 func runC06tcp(line string) string {
 	hd := strings.SplitN(line, " # ", 2)
 	f := strings.Fields(hd[0])
@@ -82,7 +113,15 @@ func runC06tcp(line string) string {
 	nb, _ := strconv.Atoi(f[1])
 	var bes []*c06Backend
 	var hosts []*host.Host
+	blackhole := len(f) > 2 && f[2] == "bh"
 	for i := 0; i < nb; i++ {
+		if blackhole && i == nb-1 {
+			addr, closeBh := newBlackhole()
+			defer closeBh()
+			bes = append(bes, &c06Backend{addr: addr, idx: i})
+			hosts = append(hosts, host.New(addr))
+			continue
+		}
 		ln, _ := net.Listen("tcp", "127.0.0.1:0")
 		b := &c06Backend{addr: ln.Addr().String(), ln: ln, idx: i, hello: []byte{byte('0' + i)}}
 		b.serve()
@@ -165,6 +204,69 @@ func runC06tcp(line string) string {
 				c.Close()
 				res = "fail"
 			}
+		case 'O':
+			// a connection is opened and, while the processor may still be dialling for it, host <arg> is removed;
+			// afterwards the host is added again
+			type ores struct {
+				c net.Conn
+				b int
+			}
+			ch := make(chan ores, 1)
+			go func() {
+				c, err := net.DialTimeout("tcp", addr, time.Second)
+				if err != nil {
+					ch <- ores{nil, -1}
+					return
+				}
+				c.SetReadDeadline(time.Now().Add(3 * time.Second))
+				b := make([]byte, 1)
+				if n, _ := c.Read(b); n == 1 {
+					ch <- ores{c, int(b[0] - '0')}
+				} else {
+					c.Close()
+					ch <- ores{nil, -1}
+				}
+			}()
+			// remove the host once the connection is established, or - when it is not after a while: the processor is
+			// presumably still dialling the backend whose connects hang - in the middle of that dial
+			var o ores
+			got := false
+			select {
+			case o = <-ch:
+				got = true
+			case <-time.After(time.Duration(float64(90*time.Millisecond) * loadFactor)):
+			}
+			p.OnSvcHostRemove([]*host.Host{host.New(bes[arg].addr)})
+			acceptedAtRemoval := atomic.LoadInt64(&bes[arg].accepts)
+			if !got {
+				o = <-ch
+			}
+			if o.c != nil {
+				ks = append(ks, &kept{c: o.c, b: o.b, open: true})
+				res = "b" + strconv.Itoa(o.b)
+			} else {
+				res = "fail"
+			}
+			closed := 0
+			for _, k := range ks {
+				if k.open && k.b == arg {
+					k.c.SetReadDeadline(time.Now().Add(time.Duration(float64(700*time.Millisecond) * loadFactor)))
+					one := make([]byte, 1)
+					if _, err := k.c.Read(one); err != nil {
+						if ne, ok := err.(net.Error); !(ok && ne.Timeout()) {
+							closed++
+							k.open = false
+							k.c.Close()
+						}
+					}
+				}
+			}
+			settle(30 * time.Millisecond)
+			// a connection that arrives at the backend after its host left the service was selected from a stale list
+			res += fmt.Sprintf(" closed=%d late=%d", closed, atomic.LoadInt64(&bes[arg].accepts)-acceptedAtRemoval)
+			h := host.New(bes[arg].addr)
+			hosts[arg] = h
+			p.OnSvcHostAdd([]*host.Host{h})
 		case 'c':
 			if arg < len(ks) && ks[arg].open {
 				ks[arg].c.Close()
@@ -220,7 +322,9 @@ func runC06tcp(line string) string {
 			return true
 		})
 		outs = append(outs, strings.TrimSpace(res+" "+counts()))
-		if op[0] == 'o' {
+		if op[0] == 'O' {
+			annotated = append(annotated, op+":"+strings.Fields(res)[0])
+		} else if op[0] == 'o' {
 			annotated = append(annotated, "o:"+res)
 		} else {
 			annotated = append(annotated, op)
@@ -261,7 +365,8 @@ func init() {
 			lines = readLines(*fIn)
 		} else {
 			r := newRng(*fSeed)
-			lines = append(lines, "least 2 # d0 o o o o o o u0 o o c0 c1 o", "rr 3 # o o o o o o r1 o o o a1 o o o")
+			lines = append(lines, "least 2 # d0 o o o o o o u0 o o c0 c1 o", "rr 3 # o o o o o o r1 o o o a1 o o o",
+				"rr 3 bh # O0 O1 O0 O1 O0 O1 O0 O1 O0", "random 3 bh # O1 O0 O1 O0 O1 O0 O1 O0 O1 O0")
 			for i := 0; i < *fN; i++ {
 				nb := 2 + r.intn(2)
 				policy := []string{"rr", "least", "random"}[r.intn(3)]
